@@ -248,13 +248,13 @@ def exec_equiv(case):
         i = int(torch.nonzero(bad.reshape(-1))[0])
         out.fail(f"equiv/dequantize-value/{'grouped' if case['grouped_input'] else case['layout']}", f"{int(bad.sum())} elements: AWQ representation {da.reshape(-1)[i].item()!r} vs standard {dq.reshape(-1)[i].item()!r}")
     # (2) converting back restores codes, scales and zero-points
-    for how in ("qbits_tensor", "state_dict"):
+    for how in ("qbits_tensor", "state_dict", "state_dict-keep_vars"):
         if how == "qbits_tensor":
             b = cut(a.qbits_tensor)
         else:
             def via_sd():
                 sd = {}
-                a.save_to_state_dict(sd, "w.", False)
+                a.save_to_state_dict(sd, "w.", how == "state_dict-keep_vars")  # what module.state_dict(keep_vars=...) calls
                 return QBitsTensor.load_from_state_dict(sd, "w.")
 
             b = cut(via_sd)
